@@ -1,11 +1,14 @@
 ;; Core sorts and symbols shared by specs and models. A chunk (text between blank lines) is included in a
 ;; query when one of the symbols it declares is used; axioms live in the chunk of the symbol they define.
 
-;; BSeq: byte strings as values (arguments of uninterpreted crypto / codec primitives).
+;; BSeq: byte strings as values (arguments of uninterpreted crypto / codec primitives). Only the octets inside the
+;; length of a sequence are specified: every pointwise axiom is guarded by the index range, because sequences are
+;; also compared for equality (an unguarded axiom would make out-of-range octets of equal sequences collide).
 (declare-sort BSeq 0)
 
 (declare-fun bseq.len (BSeq) (_ BitVec 64))
-(assert (forall ((s BSeq)) (! (bvsge (bseq.len s) #x0000000000000000) :pattern ((bseq.len s)))))
+;; (no global bound on lengths: with a wrapping sum for concatenations a global "len >= 0" would be inconsistent;
+;; non-negativity comes from the constructors)
 
 (declare-fun bseq.at (BSeq (_ BitVec 64)) (_ BitVec 8))
 
@@ -43,7 +46,8 @@
 (declare-fun seqcat (BSeq BSeq) BSeq)
 (assert (forall ((a BSeq) (b BSeq)) (! (= (bseq.len (seqcat a b)) (bvadd (bseq.len a) (bseq.len b))) :pattern ((seqcat a b)))))
 (assert (forall ((a BSeq) (b BSeq) (i (_ BitVec 64)))
-  (! (= (bseq.at (seqcat a b) i) (ite (bvslt i (bseq.len a)) (bseq.at a i) (bseq.at b (bvsub i (bseq.len a)))))
+  (! (=> (and (bvsle #x0000000000000000 i) (bvslt i (bvadd (bseq.len a) (bseq.len b))))
+         (= (bseq.at (seqcat a b) i) (ite (bvslt i (bseq.len a)) (bseq.at a i) (bseq.at b (bvsub i (bseq.len a))))))
      :pattern ((bseq.at (seqcat a b) i)))))
 
 ;; first n bytes
@@ -51,18 +55,18 @@
 (assert (forall ((s BSeq) (n (_ BitVec 64)))
   (! (=> (and (bvsle #x0000000000000000 n) (bvsle n (bseq.len s))) (= (bseq.len (seqtrunc s n)) n)) :pattern ((seqtrunc s n)))))
 (assert (forall ((s BSeq) (n (_ BitVec 64)) (i (_ BitVec 64)))
-  (! (= (bseq.at (seqtrunc s n) i) (bseq.at s i)) :pattern ((bseq.at (seqtrunc s n) i)))))
+  (! (=> (and (bvsle #x0000000000000000 i) (bvslt i n)) (= (bseq.at (seqtrunc s n) i) (bseq.at s i))) :pattern ((bseq.at (seqtrunc s n) i)))))
 
 ;; bytes [i, j)
 (declare-fun seqsub (BSeq (_ BitVec 64) (_ BitVec 64)) BSeq)
 (assert (forall ((s BSeq) (i (_ BitVec 64)) (j (_ BitVec 64)))
   (! (=> (and (bvsle #x0000000000000000 i) (bvsle i j) (bvsle j (bseq.len s))) (= (bseq.len (seqsub s i j)) (bvsub j i))) :pattern ((seqsub s i j)))))
 (assert (forall ((s BSeq) (i (_ BitVec 64)) (j (_ BitVec 64)) (k (_ BitVec 64)))
-  (! (= (bseq.at (seqsub s i j) k) (bseq.at s (bvadd i k))) :pattern ((bseq.at (seqsub s i j) k)))))
+  (! (=> (and (bvsle #x0000000000000000 k) (bvslt k (bvsub j i))) (= (bseq.at (seqsub s i j) k) (bseq.at s (bvadd i k)))) :pattern ((bseq.at (seqsub s i j) k)))))
 
 (declare-fun seqzeros ((_ BitVec 64)) BSeq)
 (assert (forall ((n (_ BitVec 64))) (! (=> (bvsle #x0000000000000000 n) (= (bseq.len (seqzeros n)) n)) :pattern ((seqzeros n)))))
-(assert (forall ((n (_ BitVec 64)) (i (_ BitVec 64))) (! (= (bseq.at (seqzeros n) i) #x00) :pattern ((bseq.at (seqzeros n) i)))))
+(assert (forall ((n (_ BitVec 64)) (i (_ BitVec 64))) (! (=> (and (bvsle #x0000000000000000 i) (bvslt i n)) (= (bseq.at (seqzeros n) i) #x00)) :pattern ((bseq.at (seqzeros n) i)))))
 
 (declare-fun seqbyte ((_ BitVec 8)) BSeq)
 (assert (forall ((b (_ BitVec 8))) (! (and (= (bseq.len (seqbyte b)) #x0000000000000001) (= (bseq.at (seqbyte b) #x0000000000000000) b)) :pattern ((seqbyte b)))))
@@ -100,6 +104,8 @@
      :pattern ((bseq.of a o #x0000000000000004)))))
 (assert (forall ((a (Array (_ BitVec 64) (_ BitVec 8))) (o (_ BitVec 64)))
   (! (= (bseq.of a o #x0000000000000000) seqempty) :pattern ((bseq.of a o #x0000000000000000)))))
+(assert (forall ((o (_ BitVec 64)) (n (_ BitVec 64)))
+  (! (= (bseq.of ((as const (Array (_ BitVec 64) (_ BitVec 8))) #x00) o n) (seqzeros n)) :pattern ((bseq.of ((as const (Array (_ BitVec 64) (_ BitVec 8))) #x00) o n)))))
 (assert (forall ((x BSeq)) (! (= (seqcat x seqempty) x) :pattern ((seqcat x seqempty)))))
 (assert (forall ((x BSeq)) (! (= (seqcat seqempty x) x) :pattern ((seqcat seqempty x)))))
 
